@@ -16,10 +16,11 @@ ACTIONS = {'Hello': ('c',), 'BadFirst': ('c',), 'Disconnect': ('c',),
 BUS = 'org.freedesktop.DBus'
 BPATH = '/org/freedesktop/DBus'
 RULETEXT = {'R1': "type='signal',member='Sig1'", 'R2': "type='signal'", 'R3': "interface='org.ex.I2'",
-            'R4': "type='signal',path_namespace='/sig/a'", 'R5': "type='method_call'", 'R6': "path='/org/freedesktop/DBus'"}
+            'R4': "type='signal',path_namespace='/sig/a'", 'R5': "type='method_call'", 'R6': "path='/org/freedesktop/DBus'",
+            'R7': "path_namespace='/'"}
 SIGS = {'S1': ('/sig/a/x', 'org.ex.I1', 'Sig1'), 'S2': ('/sig/b', 'org.ex.I2', 'Sig2'), 'S3': ('/sig/ab', 'org.ex.I1', 'Sig3')}
 # which signals each rule matches (NOC = NameOwnerChanged emitted by the bus)
-MATCH = {'R1': {'S1'}, 'R2': {'S1', 'S2', 'S3', 'NOC'}, 'R3': {'S2'}, 'R4': {'S1'}, 'R5': set(), 'R6': {'NOC'}}
+MATCH = {'R1': {'S1'}, 'R2': {'S1', 'S2', 'S3', 'NOC'}, 'R3': {'S2'}, 'R4': {'S1'}, 'R5': set(), 'R6': {'NOC'}, 'R7': {'S1', 'S2', 'S3', 'NOC'}}
 
 
 # samples of what the bus wrote, for the byte-level judgement by Message.tla (C14):
